@@ -262,6 +262,16 @@ func (t *Transport) getConn(addr string) (pc *persistConn, err error) {
 	if cq, ok := t.idleConns[addr]; ok && cq.Length() > 0 {
 		pc = cq.Dequeue()
 		pc.lastTime = time.Now()
+		pc.mu.Lock()
+		alive := pc.alive
+		pc.mu.Unlock()
+		if !alive {
+			// A connection that already failed may have been parked here by the
+			// housekeeping: never hand it out again.
+			if pc, err = t.newPersistConn(addr); err != nil {
+				return nil, err
+			}
+		}
 	} else {
 		if pc, err = t.newPersistConn(addr); err != nil {
 			return nil, err
